@@ -40,13 +40,16 @@ type vfC07Case struct {
 	Attacks      []string
 	Victim       string // victim zone apex
 	VictimSecure bool
+	Evil         string
 	Glueless     bool // the victim zone is delegated to a host in another zone, without glue
 	Spoof        bool // an off-path attacker sprays forged answers (guessed transaction IDs) at the resolver whenever it asks the victim's servers
 	QMin         int
 	Steps        []vfC07Step
 }
 
-const vfC07Evil = "evil.test."
+// vfC07Evil is the attacker's zone apex of the case being generated / run (one case at a time per process): one label
+// below the TLD, or two (test. delegates evil.co.test. directly, the co.uk shape - a cut that skips a level).
+var vfC07Evil = "evil.test."
 
 func vfC07Marker(i byte) net.IP { return net.IPv4(6, 6, 6, i).To4() }
 
@@ -159,7 +162,12 @@ func vfC07Gen(rt *rapid.T) *vfC07Case {
 	c := &vfC07Case{QMin: rapid.SampledFrom([]int{0, 0, 5}).Draw(rt, "qmin")}
 	c.VictimSecure = rapid.IntRange(0, 4).Draw(rt, "victimsecure") == 0
 	c.Spoof = rapid.IntRange(0, 3).Draw(rt, "spoof") == 0
+	c.Evil = rapid.SampledFrom([]string{"evil.test.", "evil.test.", "evil.co.test."}).Draw(rt, "evilapex")
+	vfC07Evil = c.Evil
 	c.Victim = rapid.SampledFrom([]string{"victim.test.", "victim.test.", "victim.org."}).Draw(rt, "victim")
+	if c.Evil == "evil.co.test." && rapid.Bool().Draw(rt, "victimsibling") {
+		c.Victim = "victim.co.test." // a sibling below the same skipped level
+	}
 	specs := []vfworld.ZoneSpec{
 		{Apex: ".", Signed: true},
 		{Apex: "test.", Signed: true, Servers: 2},
@@ -170,7 +178,8 @@ func vfC07Gen(rt *rapid.T) *vfC07Case {
 		{Apex: "x" + vfC07Evil, Owners: map[string][]uint16{"www.x" + vfC07Evil: {dns.TypeA}}},
 		{Apex: c.Victim, Signed: c.VictimSecure, Owners: map[string][]uint16{"www." + c.Victim: {dns.TypeA}, "mail." + c.Victim: {dns.TypeA, dns.TypeMX}, "t." + c.Victim: {dns.TypeA, dns.TypeTXT}}},
 	}
-	if c.Glueless = rapid.IntRange(0, 2).Draw(rt, "glueless") == 0; c.Glueless {
+	skipLevel := c.Evil == "evil.co.test." && rapid.Bool().Draw(rt, "skiplevelopening")
+	if c.Glueless = rapid.IntRange(0, 2).Draw(rt, "glueless") == 0 || skipLevel; c.Glueless {
 		specs[len(specs)-1].NSHost = "ns9.x" + vfC07Evil
 	}
 	if c.Victim == "victim.org." && c.VictimSecure {
@@ -180,6 +189,13 @@ func vfC07Gen(rt *rapid.T) *vfC07Case {
 	n := rapid.IntRange(1, 3).Draw(rt, "nattacks")
 	for i := 0; i < n; i++ {
 		c.Attacks = append(c.Attacks, rapid.SampledFrom(vfC07Attacks).Draw(rt, "attack"))
+	}
+	if skipLevel {
+		// the cut to the attacker's zone skips a level and is then found cached: its servers, asked below their own
+		// sub-delegation, hand out an address for a name server host that is their sibling (the glueless victim's)
+		c.Attacks = []string{"glue-lookalike"}
+		c.Steps = append(c.Steps, vfC07Step{Name: "a." + vfC07Evil, Qtype: dns.TypeA}, vfC07Step{Name: "a.sub." + vfC07Evil, Qtype: dns.TypeA},
+			vfC07Step{Name: "x.sub." + vfC07Evil, Qtype: dns.TypeA, Wire: rapid.Bool().Draw(rt, "wire")})
 	}
 	evilQ := []string{"a." + vfC07Evil, "b." + vfC07Evil, "c." + vfC07Evil, "nx." + vfC07Evil, "a.sub." + vfC07Evil, "x.sub." + vfC07Evil, vfC07Evil}
 	victimQ := []string{"t." + c.Victim, "www." + c.Victim, "mail." + c.Victim, c.Victim, "nx." + c.Victim, "test.", "ns9.x" + vfC07Evil, "www.x" + vfC07Evil}
@@ -213,6 +229,9 @@ type vfC07Result struct {
 
 func vfC07Run(t *testing.T, dir string, c *vfC07Case) (res vfC07Result) {
 	res.Stats = map[string]int{}
+	if c.Evil != "" {
+		vfC07Evil = c.Evil
+	}
 	fail := func(f string, a ...any) {
 		if res.Violation == "" {
 			res.Violation = fmt.Sprintf(f, a...)
